@@ -11,6 +11,7 @@ class MemoSim:
         self.inputs = {}        # elem -> assigned value
         self.succ = {}          # elem -> set of elements computed from it (direct, through uncached cells)
         self.pred = {}          # elem -> set of elements it was computed from
+        self.values = {}        # elem -> value the reference computed when the element acquired its value
         self.hits = 0           # cache hits inside formulas
         self.inversions = 0     # top-level requests for an element that was already held
 
@@ -21,6 +22,10 @@ class MemoSim:
         Returns the predicted execution log (elements whose formula runs, in order).
         """
         log = []
+        failed = getattr(trace, "failed", {})
+
+        class _Abort(Exception):
+            pass
 
         def link(elem, caller):
             if caller is not None:
@@ -37,7 +42,14 @@ class MemoSim:
                 link(elem, caller)
                 return
             if elem not in trace.calls:
-                # the reference never completed this element (failed evaluation)
+                if elem in failed:
+                    # on the failing chain: runs, completes some callees, acquires no value
+                    if elem[1] is not None:
+                        log.append(elem)
+                    inner = elem if cached else caller
+                    for callee in failed[elem][0]:
+                        run(callee, inner, False)
+                    raise _Abort()
                 return
             if elem[1] is not None:
                 log.append(elem)
@@ -46,8 +58,13 @@ class MemoSim:
                 run(callee, inner, False)
             if cached:
                 self.held.add(elem)
+                if elem in trace.values:
+                    self.values[elem] = trace.values[elem]
                 link(elem, caller)
-        run(top, None, True)
+        try:
+            run(top, None, True)
+        except _Abort:
+            pass
         return log
 
     # -- discarding -------------------------------------------------------------
@@ -68,6 +85,7 @@ class MemoSim:
         for e in elems:
             self.held.discard(e)
             self.inputs.pop(e, None)
+            self.values.pop(e, None)
             for p in self.pred.pop(e, ()):
                 self.succ.get(p, set()).discard(e)
             for s in self.succ.pop(e, ()):
@@ -113,3 +131,7 @@ class MemoSim:
 
     def leaf_dependents(self, elem):
         return {d for d in self.dependents(elem) if not self.succ.get(d)}
+
+    def memory(self):
+        """{elem: value} of computed elements currently held (ItemSpace elements excluded)"""
+        return {e: v for e, v in self.values.items() if e in self.held and e[1] is not None}
